@@ -1644,6 +1644,12 @@ pub fn drive(tier_name: &str, seed: u64, workers: usize) -> i32 {
     println!("C12 tier={} VERIF_SEED={} runs<={} workers={}", t.name, seed, runs_target, workers);
     let corpus = gen_corpus(derive(seed, "corpus", 0), t.families, t.q_per_fam);
     println!("corpus: {} contents in {} families, {} queries", corpus.contents.len(), corpus.families.len(), corpus.queries.len());
+    if std::env::var("VERIF_DUMP_CORPUS").is_ok() {
+        for q in &corpus.queries {
+            println!("Q {}", q);
+        }
+        return 0;
+    }
     let mut table: ColdTable = HashMap::new();
     let mut cold_disagreements: Vec<(ColdReq, String)> = vec![];
     // agreement sweep: the four entry points on many (document, query) pairs, in fresh chunk processes
